@@ -270,6 +270,105 @@ func runC02(o Opts) error {
 			apiCase(s, Cfg{}, oc, Script{Kind: "datagrams", Datagrams: [][]byte{reply}}, "reply/sentinel-requested", nil, true)
 		}
 	}
+	// pairs of single-byte fields of one reply over the small constants the source itself names (plus 0..6), with every
+	// boolean of the reply set: special cases that couple two fields (and then override a third) show here
+	{
+		small := []byte{0, 1, 2, 3, 4, 5, 6}
+		seen := map[byte]bool{0: true, 1: true, 2: true, 3: true, 4: true, 5: true, 6: true}
+		for _, v := range dictIntsOf(8) {
+			if !seen[byte(v)] && len(small) < 26 {
+				seen[byte(v)] = true
+				small = append(small, byte(v))
+			}
+		}
+		perOp := 700
+		if thorough {
+			perOp = 8000
+		}
+		for w := 0; w < nOps; w++ {
+			budget := perOp
+			id := genID(r)
+			oc := genOp(r, w, id, false)
+			if oc.Resp == "" || oc.Name == "GetTimeProfile" || oc.Name == "GetCardByID" {
+				continue
+			}
+			var bytesF, boolsF []fieldPos
+			for _, f := range replyFields(oc.Resp) {
+				if f.Off >= 8 && (f.Text == "uint8" || f.Text == "byte") {
+					bytesF = append(bytesF, f)
+				}
+				if f.Off >= 8 && f.Text == "bool" {
+					boolsF = append(boolsF, f)
+				}
+			}
+			if len(bytesF) < 2 {
+				continue
+			}
+			if len(bytesF) > 4 {
+				bytesF = bytesF[:4]
+			}
+			for i := 0; i < len(bytesF); i++ {
+				for j := i + 1; j < len(bytesF); j++ {
+					for _, a := range small {
+						for _, b := range small {
+							if budget <= 0 {
+								break
+							}
+							budget--
+							reply := genReply(r, oc.Resp, id, 0, map[string]uint64{"EventIndex": 77})
+							for _, bf := range boolsF {
+								reply[bf.Off] = 1
+							}
+							for k, of := range bytesF { // the other single-byte fields small and valid-looking
+								reply[of.Off] = byte(1 + (k+int(a)+int(b))%4)
+							}
+							reply[bytesF[i].Off], reply[bytesF[j].Off] = a, b
+							apiCase(s, Cfg{}, oc, Script{Kind: "datagrams", Datagrams: [][]byte{reply}}, "reply/byte-field-pairs", nil, true)
+						}
+					}
+				}
+			}
+		}
+	}
+	// the event block of a status / event reply over the whole product of its small domains (type x reason x door x
+	// direction), every boolean of the reply set: a special case keyed on several of them at once shows as a changed field
+	for w := 0; w < nOps; w++ {
+		id := genID(r)
+		oc := genOp(r, w, id, false)
+		if oc.Resp == "" {
+			continue
+		}
+		pos := map[string]fieldPos{}
+		var boolsF []fieldPos
+		for _, f := range replyFields(oc.Resp) {
+			pos[f.Name] = f
+			if f.Off >= 8 && f.Text == "bool" {
+				boolsF = append(boolsF, f)
+			}
+		}
+		et, ok1 := pos["EventType"]
+		rs, ok2 := pos["Reason"]
+		dr, ok3 := pos["Door"]
+		di, ok4 := pos["Direction"]
+		if !(ok1 && ok2 && ok3 && ok4) {
+			continue
+		}
+		for _, t := range []byte{0, 1, 2, 3, 0xff} {
+			for reason := 0; reason <= 46; reason++ {
+				if !thorough && (int(t)+reason)%2 == 1 && reason > 6 && reason != 24 && reason != 44 {
+					continue // quick: half of the product (all of it in the thorough tier)
+				}
+				for door := byte(1); door <= 4; door++ {
+					reply := genReply(r, oc.Resp, id, 0, map[string]uint64{"EventIndex": 78})
+					for _, bf := range boolsF {
+						reply[bf.Off] = 1
+					}
+					reply[et.Off], reply[rs.Off], reply[dr.Off], reply[di.Off] = t, byte(reason), door, 1+door%2
+					apiCase(s, Cfg{}, oc, Script{Kind: "datagrams", Datagrams: [][]byte{reply}}, "reply/event-block-product", nil, true)
+				}
+			}
+		}
+	}
 	if o.Replay == "" {
 		dstC02(s, r)
 		latencyProbe(s, r)
